@@ -78,11 +78,22 @@ varintWidth varintPFORComputeThreshold(const uint64_t *values, uint32_t count,
     /* Calculate exception marker */
     uint64_t marker = varintPFORCalculateMarker(width);
 
+    /* The all-ones marker must not be a legal in-range offset. When the
+     * largest in-range offset equals the marker, store one more byte per
+     * value: the wider marker is then above every in-range offset. At 8 bytes
+     * the only colliding offset is UINT64_MAX itself (min == 0); such values
+     * are stored as exceptions below. */
+    if (width < VARINT_WIDTH_64B && range == marker) {
+        width++;
+        marker = varintPFORCalculateMarker(width);
+    }
+
     /* Count exceptions - values above threshold percentile */
     uint32_t exceptionCount = 0;
     for (uint32_t i = 0; i < count; i++) {
-        if (values[i] > thresholdValue) {
-            /* Value above threshold is an exception */
+        if (values[i] > thresholdValue || (values[i] - min) == marker) {
+            /* Value above threshold is an exception; so is an in-range value
+             * whose offset would be indistinguishable from the marker */
             exceptionCount++;
         }
     }
@@ -159,7 +170,9 @@ size_t varintPFOREncode(uint8_t *dst, const uint64_t *values, uint32_t count,
     for (uint32_t i = 0; i < count; i++) {
         uint64_t value = values[i];
 
-        if (value > meta->thresholdValue && exceptions) {
+        if ((value > meta->thresholdValue ||
+             (value - meta->min) == meta->exceptionMarker) &&
+            exceptions) {
             /* Above threshold: store exception marker */
             varintExternalPutFixedWidth(dst, meta->exceptionMarker,
                                         meta->width);
